@@ -117,8 +117,8 @@ CLAIMS = {
             "Decides the structural necessary conditions of maximal de-duplication and of tree preservation: atoms are looked up by content, pairs by their interned children (left, right); a node is created and pushed exactly once and only when its entry is vacant; the created atom has the source bytes, the created pair has the two key values as children; every source node is mapped once and the root is the mapping of the request. Not that the serialization is byte-identical (a value property).",
             "Trusts rustc's MIR and std's HashMap entry API.",
             "DESIGN.md 4/C24"),
-    "C25": ("in-bounds verifier for every indexing / slicing / division site reachable from run_program (lib/bounds.py: flow-sensitive symbolic values with reaching definitions, dominating and per-path branch facts, staleness analysis for mutable storage, linear prover with infeasible-path detection), typestate rule for the accessors that panic on pairs (match arms, !is_pair(), validator summaries, constructor results, recursive caller check over the resolved call graph), audited inventories of explicit panic sites (local guards checked by dominance) and InternalError constructions, SCC computation for recursion",
-            "Decides for all functions reachable from run_program (both dialects, every operator): each of the ~90 indexing and 5 division sites is proved in bounds from the code's own conditions (60 goals), or proved under the allocator's stated storage invariant (31, inside impl Allocator only), or relies on one of 18 audited invariants listed with their reason; every call of atom()/atom_len()/number()/atom_eq() is on a node known to be an atom; the 20 explicit panic sites and 15 InternalError constructions are the audited ones and a new one is reported; no recursion. Not decided: arithmetic overflow assertions (debug builds only), dependency crates, allocation failure, and that the audited stack-discipline invariants hold (C04/C31 decide the pairing).",
+    "C25": ("in-bounds verifier for every indexing / slicing / division site reachable from run_program (lib/bounds.py: flow-sensitive symbolic values with reaching definitions, dominating and per-path branch facts, staleness analysis for mutable storage, linear prover with infeasible-path detection, and an inductive loop-invariant step for indices that are reassigned inside a loop: entry / preservation / use are each discharged by the same prover, optionally under a boolean guard), typestate rule for the accessors that panic on pairs (match arms, !is_pair(), validator summaries, constructor results, recursive caller check over the resolved call graph), audited inventories of explicit panic sites (local guards checked by dominance) and InternalError constructions, SCC computation for recursion",
+            "Decides for all functions reachable from run_program (both dialects, every operator): each of the ~90 indexing and 5 division sites is proved in bounds from the code's own conditions (63 goals, 3 of them by an inductively checked loop invariant), or proved under the allocator's stated storage invariant (31, inside impl Allocator only), or relies on one of 15 audited invariants listed with their reason; every call of atom()/atom_len()/number()/atom_eq() is on a node known to be an atom; the 20 explicit panic sites and 15 InternalError constructions are the audited ones and a new one is reported; no recursion. Not decided: arithmetic overflow assertions (debug builds only), dependency crates, allocation failure, and that the audited stack-discipline invariants hold (C04/C31 decide the pairing).",
             "Sound-but-incomplete verifier: new indexing code that is safe for a reason the prover cannot see must be added to the audited table with its invariant. Trusts rustc's MIR, the purity list for accessor calls, and the audited invariants.",
             "DESIGN.md 4/C25"),
     "C26": ("normal-form comparison of every binding: the value each #[pyfunction] returns is reconstructed from MIR across `?`, map_err, borrows and closures (lib/inline.py) and compared with 'core function applied to the caller's parameters'; call inventory + &mut-borrow inventory (nothing else touches core state); flag-region rule for the heap limit; constant comparison of exported flags with the core's; Python ast rules for serde.py and Program.run_with_cost, parameterised by the Rust signatures",
@@ -178,7 +178,7 @@ def main():
         ],
         "checks": checks,
         "not_applicable": na,
-        "notes": "Every check is ./check <id>: it rebuilds MIR facts from /repo's current working tree (cached by a hash of the sources), applies the property's rules, writes evidence/<id>.json, prints KNOWN-FINDING lines for defects listed in known_findings.json and VIOLATION lines otherwise. VERIF_REPO=<dir> points the same command at a scratch copy.",
+        "notes": "Two views of the same program: each rule runs on the MIR as written; only if an obligation fails there it is re-run on a second view in which every small private helper is inlined into its callers (lib/inline_mir.py), and an obligation that holds on either view is discharged (per key, or per function cluster for helpers that are dissolved in the second view). Extracting lines into a private helper therefore does not by itself raise an alarm; a defect is reported when neither view satisfies the rule. Every check is ./check <id>: it rebuilds MIR facts from /repo's current working tree (cached by a hash of the sources), applies the property's rules, writes evidence/<id>.json, prints KNOWN-FINDING lines for defects listed in known_findings.json and VIOLATION lines otherwise. VERIF_REPO=<dir> points the same command at a scratch copy.",
     }
     with open(os.path.join(VERIF, "MANIFEST.json"), "w") as f:
         json.dump(m, f, indent=1)
